@@ -139,6 +139,11 @@ func instrWrites(w *World, e *Enc, in ssa.Instruction) []string {
 			}
 		}
 		if ci.spec != nil {
+			for _, sc := range ci.spec.Sets {
+				if h, err := w.heapGhost(sc.Ghost); err == nil {
+					set[h] = true
+				}
+			}
 			for _, m := range ci.spec.Modifies {
 				for _, g := range m.Ghosts {
 					if h, err := w.heapGhost(g); err == nil {
